@@ -11,6 +11,31 @@ from harness.common import Prop
 FAULTS = ["eof", "oserror", "timeout", "write", "stall", "eof-mid"]
 
 
+def raw_log(log):
+    """The whole history after the first establishment in the alphabet of the event-level model (Model/ConnSM.v):
+    [0] new device | [1, i] device i told connected=False | [2] transport closed | [3, ok] open attempt | [4] the back-off interval
+    has passed since the failed attempt before | [5] start-master queued | [6, i] device i told connected=True."""
+    out, started, last_failed = [], False, None
+    for e in log:
+        if not started:
+            started = e[0] == "start-master"
+            continue
+        if e[0] == "new-device":
+            out.append([0])
+        elif e[0] == "connected":
+            out.append([6 if e[2] else 1, e[1]])
+        elif e[0] == "writer-closed":
+            out.append([2])
+        elif e[0] == "start-master":
+            out.append([5])
+        elif e[0] == "open":
+            if last_failed is not None and e[1] - last_failed >= 20:
+                out.append([4])
+            out.append([3, bool(e[2])])
+            last_failed = None if e[2] else e[1]
+    return out
+
+
 async def _run(n0, cycles):
     log, transports = [], []
     script = [False] * n0 + [True]
@@ -25,6 +50,7 @@ async def _run(n0, cycles):
     def put_nowait(frame):
         if int(frame.frame_type) == 0x19:
             sm_puts[0] += 1            # a start-master request is handed to the transmit queue
+            log.append(["start-master"])
         return orig_put(frame)
     wq.put_nowait = put_nowait
     await conn.connect()
@@ -142,9 +168,10 @@ async def _run(n0, cycles):
                                  [e[1] for e in seg if e[0] == "connected" and e[2] is True],
                                  tc["producers"], tc["consumers"]],
                          "other_tasks": tc["protocol_other"] + tc["connection"], "probe_ok": probe_ok})
+    raw = raw_log(log)
     await asyncio.wait_for(conn.close(), timeout=300)
     rec.uninstall()
-    return {"cycles": outs, "identity_ok": identity_ok and all(o["probe_ok"] for o in outs)}
+    return {"cycles": outs, "identity_ok": identity_ok and all(o["probe_ok"] for o in outs), "raw": raw}
 
 
 class C11(Prop):
@@ -156,7 +183,9 @@ class C11(Prop):
             "reconnect attempts, lost transports that take 0 / 3 / 12 s to finish closing, and 0..2 re-established transports whose very first write fails at once; observed per cycle: connected=False/True events per device, transport close calls, open attempts with their "
             "virtual-time gaps, start-master frames on the new transport, live producer/consumer tasks.  Non-trivial = a device is known when "
             "the connection is lost; distinct by case content.")
-    assumptions = ["sockets / serial ports and wait_for cancellation inside a real transport are not modelled: faults are injected at the "
+    assumptions = ["the chronological history of every run (device events, transport closes, open attempts with the back-off between them, "
+                   "start-master puts) is also judged by the monitor of the event-level model (mon_ok, accepted for every event sequence of "
+                   "the model: C11_sm)", "sockets / serial ports and wait_for cancellation inside a real transport are not modelled: faults are injected at the "
                    "StreamReader / StreamWriter boundary", "virtual time stands for real time (back-off measured on the loop clock)"]
 
     def generate(self, rng, tier):
@@ -176,7 +205,7 @@ class C11(Prop):
         r = vloop.run(_run, c["n0"], c["cycles"])
         c["_devices"] = [o["devices"] for o in r["cycles"]]
         return {"outs": [o["out"] for o in r["cycles"]], "identity_ok": r["identity_ok"],
-                "no_leftover_tasks": all(o["other_tasks"] == 0 for o in r["cycles"])}
+                "no_leftover_tasks": all(o["other_tasks"] == 0 for o in r["cycles"]), "raw": r["raw"]}
 
     def _cin(self, c):
         # devices known at each loss: observed once from the traffic (ecoMAX and/or ecoSTER frames seen so far)
@@ -201,11 +230,16 @@ class C11(Prop):
     def model_many(self, cases):
         res = model.call_many("run_conn", [[True, self._cin(c)] for c in cases])
         fix = lambda o: [o[0], o[1], [[g, bool(k)] for g, k in o[2]], o[3], o[4], o[5], o[6]]
-        return [{"outs": [fix(o) for o in r], "identity_ok": True, "no_leftover_tasks": True} for r in res]
+        return [{"outs": [fix(o) for o in r], "identity_ok": True, "no_leftover_tasks": True, "raw": None} for r in res]
 
     def spec_many(self, cases, behaviours):
         res = model.call_many("P11", [[self._cin(c), b["outs"]] for c, b in zip(cases, behaviours)])
-        return [bool(r) and b["identity_ok"] for r, b in zip(res, behaviours)]
+        # the whole chronological history (not cut into cycles) against the monitor of the event-level model (C11_sm)
+        mon = model.call_many("mon11", [b["raw"] for b in behaviours])
+        return [bool(r) and bool(m) and b["identity_ok"] for r, m, b in zip(res, mon, behaviours)]
+
+    def obs(self, c, b):
+        return {k: v for k, v in b.items() if k != "raw"}
 
     def nontrivial_key(self, c, mb):
         return repr(c["cycles"]) if any(d > 0 for d, _ in self._cin(c)) else None
